@@ -238,8 +238,11 @@ int runScenario(const QJsonObject &scn)
             if (scn["kind"].toString() == "file") {
                 sink.reset(new FileSink(path));
             } else {
-                sink.reset(new RotatingFileSink(path, scn["L"].toInt(), scn["N"].toInt(),
-                                                RotatingFileSink::Options(scn["opts"].toInt())));
+                // a restarted process may pass other constructor arguments than the one before
+                const int L = op.contains("L") ? op["L"].toInt() : scn["L"].toInt();
+                const int N = op.contains("N") ? op["N"].toInt() : scn["N"].toInt();
+                const int opts = op.contains("opts") ? op["opts"].toInt() : scn["opts"].toInt();
+                sink.reset(new RotatingFileSink(path, L, N, RotatingFileSink::Options(opts)));
             }
         } else if (kind == "send" && sink) {
             const QString text = QString::fromUtf8(QByteArray::fromBase64(op["b64"].toString().toLatin1()));
